@@ -116,17 +116,16 @@ theorem filter_subset_closure (g : Graph) (wl : Whitelist) (r : Filtered) (hwf :
     (∀ t ∈ r.types, t ∈ closure g (seeds g wl)) ∧ (∀ rt ∈ r.routes, rt ∈ closure g (seeds g wl)) :=
   filter_sound hwf hda h (closure_closed' g hwf _ (seeds_mem_ids hwf wl)) (closure_contains_seeds g _)
 
-/-- `docsAgree` cannot be dropped from `filter_subset_closure`: an inherited member's doc is read in
-the namespace of the child, `derived.Q` is retained instead of `base.Q`. -/
-example : gInherit.refsOk = true ∧ docsAgree gInherit = false ∧
-    typesOf gInherit (wlOne "derived" "r") = some ["derived.C", "derived.Q", "base.P"] ∧
+/-- Regression (formerly the witness that `docsAgree` fails on real dumps): an inherited member's doc used to be read in
+the namespace of the child, so that `derived.Q` was retained instead of `base.Q`. The walk now reads it with its
+owner: the dump satisfies `docsAgree` and the retained data types are those of the closure. -/
+example : gInherit.refsOk = true ∧ docsAgree gInherit = true ∧
+    typesOf gInherit (wlOne "derived" "r") = some ["derived.C", "base.P", "base.Q"] ∧
     closure gInherit (seeds gInherit (wlOne "derived" "r")) = ["derived.r:1", "derived.C", "base.P", "base.Q"] := by
   decide
 
-/-- ... and when the child namespace has no such name the filter fails with `KeyError`. -/
-example : (match whitelistFilter gInheritCrash (wlOne "derived" "r") with
-    | .error (.keyError k) => k == "Q"
-    | _ => false) = true := by decide
+/-- ... and when the child namespace has no such name the filter used to fail with `KeyError('Q')`; it succeeds. -/
+example : typesOf gInheritCrash (wlOne "derived" "r") = some ["derived.C", "base.P", "base.Q"] := by decide
 
 /-- the filter's `types` are data types, and each is a marked node of the walk -/
 theorem filter_types_are_types (g : Graph) (wl : Whitelist) (r : Filtered) (hwf : g.refsOk = true)
@@ -137,16 +136,24 @@ theorem filter_types_are_types (g : Graph) (wl : Whitelist) (r : Filtered) (hwf 
   rw [e1] at ht
   exact ((hrun.inv.types t).1 ht).2
 
+/-- a whitelisted route is no data type -/
+theorem wl_route_not_type {g : Graph} (hwf : g.refsOk = true) {wl : Whitelist} {t : Id}
+    (hk : t ∈ wlAllRouteIds g wl) (hty : g.isTypeId t = true) : False := by
+  obtain ⟨_, _, _, nd, hnd, hkr, _⟩ := wl_route_kind hwf hk
+  obtain ⟨n', hn', ht'⟩ := isTypeId_iff.1 hty
+  rw [hnd] at hn'; cases hn'
+  simp [Node.isType, hkr] at ht'
+
 /--
-PARTIAL. Full statement (`filter_eq_closure`): on a well-formed dump the data types retained by
-`whitelistFilter` are exactly the data types of `closure g (seeds g wl)`.
-What is missing: the statement is FALSE of the code for the edge kind "doc references of a route that
-is retained only because a doc mentions it" (`routeDocsClosed`; witness below), and the walk reads
-docs of inherited members in the child's namespace (`docsAgree`; witness above). Under these two
-explicit hypotheses (and `tagDefaultsOk`, which every compiled Api satisfies) the equality holds.
+On a well-formed dump the data types retained by `whitelistFilter` are exactly the data types of
+`closure g (seeds g wl)`. `docsAgree` (the code-level reading of every doc string denotes what the references
+mean in the namespace that declares them) and `tagDefaultsOk` hold of every dump of a compiled Api; the driver
+evaluates them on each. (Until the walk was repaired the statement was FALSE of the code for the docs of routes
+that are kept because a doc refers to them and for docs of inherited members; it carried the hypothesis
+`routeDocsClosed` and was called `filter_eq_closure_partial`.)
 -/
-theorem filter_eq_closure_partial (g : Graph) (wl : Whitelist) (r : Filtered) (hwf : g.refsOk = true)
-    (hda : docsAgree g = true) (htd : tagDefaultsOk g = true) (hrd : routeDocsClosed g wl = true)
+theorem filter_eq_closure (g : Graph) (wl : Whitelist) (r : Filtered) (hwf : g.refsOk = true)
+    (hda : docsAgree g = true) (htd : tagDefaultsOk g = true)
     (h : whitelistFilter g wl = .ok r) :
     ∀ t, t ∈ r.types ↔ (t ∈ closure g (seeds g wl) ∧ g.isTypeId t = true) := by
   intro t
@@ -155,36 +162,30 @@ theorem filter_eq_closure_partial (g : Graph) (wl : Whitelist) (r : Filtered) (h
     exact ⟨(filter_subset_closure g wl r hwf hda h).1 t ht, filter_types_are_types g wl r hwf hda h t ht⟩
   · rintro ⟨hc, hty⟩
     obtain ⟨st, wlRoutes, hrun, e1, _, _⟩ := filterRun_of_ok hwf hda h
-    have hk := closure_least g _ (Known g wl st) (seeds_known hrun) (known_closed hwf hda htd hrd hrun) t hc
+    have hk := closure_least g _ (Known g wl st) (seeds_known hrun) (known_closed hwf hda htd hrun) t hc
     rw [e1]
     rcases hk with hk | hk
     · exact (hrun.inv.types t).2 ⟨hk, hty⟩
-    · have := known_route_kind hwf hrun hk
-      obtain ⟨n, hn, hr⟩ := isRouteId_iff.1 this
-      obtain ⟨n', hn', ht'⟩ := isTypeId_iff.1 hty
-      rw [hn] at hn'; cases hn'
-      rcases kind_cases n with h' | h' | h' <;> simp [hr, ht'] at h'
+    · exact (wl_route_not_type hwf hk hty).elim
 
-/-- non-vacuity: the hypotheses of `filter_eq_closure_partial` hold on a graph where the filter removes a type -/
+/-- non-vacuity: the hypotheses of `filter_eq_closure` hold on a graph where the filter removes a type -/
 example : gAlias.refsOk = true ∧ docsAgree gAlias = true ∧ tagDefaultsOk gAlias = true ∧
-    routeDocsClosed gAlias (wlOne "a" "r") = true ∧ typesOf gAlias (wlOne "a" "r") = some ["a.S"] := by decide
+    typesOf gAlias (wlOne "a" "r") = some ["a.S"] := by decide
 
-/-- `routeDocsClosed` cannot be dropped: `d.other` is kept because the doc of `d.Arg` mentions it, its
-own doc mentions `d.Mentioned`, which is in the closure and is not retained. -/
+/-- Regression (formerly the witness that `routeDocsClosed` cannot be dropped): `d.other` is kept because the doc of
+`d.Arg` refers to it; its own doc refers to `d.Mentioned`, which is in the closure - and is now retained. -/
 example : gRouteDoc.refsOk = true ∧ docsAgree gRouteDoc = true ∧ routeDocsClosed gRouteDoc (wlOne "d" "main") = false ∧
-    typesOf gRouteDoc (wlOne "d" "main") = some ["d.Arg", "d.OtherArg"] ∧
+    typesOf gRouteDoc (wlOne "d" "main") = some ["d.Arg", "d.OtherArg", "d.Mentioned"] ∧
     routesOf gRouteDoc (wlOne "d" "main") = some ["d.main:1", "d.other:1"] ∧
     "d.Mentioned" ∈ closure gRouteDoc (seeds gRouteDoc (wlOne "d" "main")) := by decide
 
 /--
-PARTIAL. Full statement: the routes retained are exactly the routes of the closure. Missing: FALSE of
-the code for the edge kind "route mentioned in the doc of a whitelisted route or of a namespace named
-in the whitelist" - the code keeps the types of such a route and drops the route itself
-(`seedDocRoutesKept`; witness below).
+The routes retained are exactly the routes of the closure. (Formerly `filter_routes_eq_closure_partial`, with the
+hypotheses `routeDocsClosed` and `seedDocRoutesKept`: a route referred to by the doc of a whitelisted route or
+namespace contributed its types and was dropped itself.)
 -/
-theorem filter_routes_eq_closure_partial (g : Graph) (wl : Whitelist) (r : Filtered) (hwf : g.refsOk = true)
-    (hda : docsAgree g = true) (htd : tagDefaultsOk g = true) (hrd : routeDocsClosed g wl = true)
-    (hsd : seedDocRoutesKept g wl = true) (h : whitelistFilter g wl = .ok r) :
+theorem filter_routes_eq_closure (g : Graph) (wl : Whitelist) (r : Filtered) (hwf : g.refsOk = true)
+    (hda : docsAgree g = true) (htd : tagDefaultsOk g = true) (h : whitelistFilter g wl = .ok r) :
     ∀ x, x ∈ r.routes ↔ (x ∈ closure g (seeds g wl) ∧ g.isRouteId x = true) := by
   obtain ⟨st, wlRoutes, hrun, _, e2, _⟩ := filterRun_of_ok hwf hda h
   have hmem : ∀ x, x ∈ r.routes ↔ (x ∈ wlAllRouteIds g wl ∨ x ∈ st.routes) := by
@@ -196,52 +197,21 @@ theorem filter_routes_eq_closure_partial (g : Graph) (wl : Whitelist) (r : Filte
   · intro hx
     refine ⟨(filter_subset_closure g wl r hwf hda h).2 x hx, ?_⟩
     rcases (hmem x).1 hx with h' | h'
-    · exact known_route_kind hwf hrun (Or.inl h')
-    · exact known_route_kind hwf hrun (Or.inr (Or.inl h'))
+    · obtain ⟨_, _, _, nd, hnd, hkr, _⟩ := wl_route_kind hwf h'
+      exact isRouteId_iff.2 ⟨nd, hnd, by simp [Node.isRoute, hkr]⟩
+    · exact ((hrun.inv.routes x).1 h').2
   · rintro ⟨hc, hr⟩
-    have hk := closure_least g _ (Known g wl st) (seeds_known hrun) (known_closed hwf hda htd hrd hrun) x hc
-    rcases hk with hk | hk | hk | hk
-    · obtain ⟨kids, rts, he, _⟩ := seen_node hrun.inv hk
-      obtain ⟨n, hn, hnr⟩ := expand_node_kind he
-      obtain ⟨n', hn', hr'⟩ := isRouteId_iff.1 hr
-      rw [hn] at hn'; cases hn'
-      simp [hnr] at hr'
+    have hk := closure_least g _ (Known g wl st) (seeds_known hrun) (known_closed hwf hda htd hrun) x hc
+    rcases hk with hk | hk
+    · exact (hmem x).2 (Or.inr ((hrun.inv.routes x).2 ⟨hk, hr⟩))
     · exact (hmem x).2 (Or.inl hk)
-    · exact (hmem x).2 (Or.inr hk)
-    · -- mentioned in the doc of a whitelisted route / namespace: whitelisted itself, by `seedDocRoutesKept`
-      refine (hmem x).2 (Or.inl ?_)
-      simp only [seedDocRoutesKept, Bool.and_eq_true, List.all_eq_true] at hsd
-      obtain ⟨h1, h2⟩ := hsd
-      simp only [seedDocRoutes, List.mem_append, List.mem_flatMap] at hk
-      have hns : ∀ p ∈ wl.routes ++ wl.datatypes, x ∈ (nsDocSeeds g p.1).filter g.isRouteId →
-          x ∈ wlAllRouteIds g wl := by
-        intro p hp hx
-        have := h2 p.1 (by
-          simp only [List.mem_append, List.mem_map]
-          rcases List.mem_append.1 hp with hp | hp
-          · exact Or.inl ⟨p, hp, rfl⟩
-          · exact Or.inr ⟨p, hp, rfl⟩) x hx
-        simpa using this
-      rcases hk with ⟨p, hp, hx | ⟨rt, hrt, hx⟩⟩ | ⟨p, hp, hx⟩
-      · exact hns p (List.mem_append_left _ hp) hx
-      · obtain ⟨nd, hnd, _, hnsd⟩ := wlRouteIds_route hwf hrt
-        have hw : rt ∈ wlAllRouteIds g wl := by
-          simp only [wlAllRouteIds, List.mem_flatMap]; exact ⟨p, hp, hrt⟩
-        have := h1 rt hw
-        simp only [hnd, List.all_eq_true] at this
-        have hx' : x ∈ (docTargets g nd.ns nd.docRefs).filter g.isRouteId := by
-          have := mem_specDocs_routes.1 hx
-          simp only [docsOf, hnd, ← hnsd] at this
-          exact List.mem_filter.2 this
-        simpa using this x hx'
-      · exact hns p (List.mem_append_right _ hp) hx
 
-/-- `seedDocRoutesKept` cannot be dropped: `e.see_also:2` is mentioned in the doc of the whitelisted
-`e.main`; its argument type is retained, the route is not. -/
-example : gSeedDoc.refsOk = true ∧ docsAgree gSeedDoc = true ∧ routeDocsClosed gSeedDoc (wlOne "e" "main") = true ∧
+/-- Regression (formerly the witness that `seedDocRoutesKept` cannot be dropped): `e.see_also:2` is referred to by the
+doc of the whitelisted `e.main`; its argument type was retained and the route was not - now both are. -/
+example : gSeedDoc.refsOk = true ∧ docsAgree gSeedDoc = true ∧
     seedDocRoutesKept gSeedDoc (wlOne "e" "main") = false ∧
     typesOf gSeedDoc (wlOne "e" "main") = some ["e.Arg", "e.SeeArg"] ∧
-    routesOf gSeedDoc (wlOne "e" "main") = some ["e.main:1"] ∧
+    routesOf gSeedDoc (wlOne "e" "main") = some ["e.main:1", "e.see_also:2"] ∧
     "e.see_also:2" ∈ closure gSeedDoc (seeds gSeedDoc (wlOne "e" "main")) := by decide
 
 /-! ## Whitelisted items are kept -/
@@ -380,11 +350,13 @@ theorem reached_aliases_retained (g : Graph) (wl : Whitelist) (r : Filtered) (hw
 
 /-- NO DANGLING REFERENCE: every reference held by a retained item - the field / tag types, parent
 and enumerated subtypes of a data type, the signature of a route, the target of an alias - names a
-retained data type or a retained alias. (Side condition as for `filter_subset_closure`: `docsAgree`;
-the dangling-reference scan of the harness judges every case, also where it fails.) -/
+retained item: a retained data type or a retained alias, unless the id is that of a route (no type expression of a
+compiled Api names a route; then the route is retained). (Side condition as for `filter_subset_closure`:
+`docsAgree`; the dangling-reference scan of the harness judges every case.) -/
 theorem no_dangling (g : Graph) (wl : Whitelist) (r : Filtered) (hwf : g.refsOk = true)
     (hda : docsAgree g = true) (h : whitelistFilter g wl = .ok r) :
-    ∀ a, Retained r a → ∀ b ∈ hardRefs g a, (b ∈ r.types ∨ b ∈ r.aliases) := by
+    ∀ a, Retained r a → ∀ b ∈ hardRefs g a,
+      ((b ∈ r.types ∨ b ∈ r.aliases) ∨ (g.isRouteId b = true ∧ b ∈ r.routes)) := by
   obtain ⟨st, wlRoutes, hrun, e1, e2, e4, hals⟩ := filterRun_of_ok hwf hda h
   obtain ⟨hall, hmem⟩ := filterAliases_mem hals
   have hreached := reached_aliases_retained g wl r hwf hda h
@@ -392,18 +364,23 @@ theorem no_dangling (g : Graph) (wl : Whitelist) (r : Filtered) (hwf : g.refsOk 
     intro i ⟨h1, h2⟩
     simp only [Filtered.reachedAliases, e4, List.mem_filterMap]
     exact ⟨.node i, h1, by simp [h2]⟩
-  -- a marked node is a retained data type or a retained alias
-  have hseen : ∀ b, Item.node b ∈ st.seen → (b ∈ r.types ∨ b ∈ r.aliases) := by
+  -- a marked node is a retained data type, a retained alias or a retained route
+  have hseen : ∀ b, Item.node b ∈ st.seen →
+      ((b ∈ r.types ∨ b ∈ r.aliases) ∨ (g.isRouteId b = true ∧ b ∈ r.routes)) := by
     intro b hb
-    obtain ⟨kids, rts, he, _⟩ := seen_node hrun.inv hb
-    obtain ⟨n, hn, hnr⟩ := expand_node_kind he
+    obtain ⟨kids, he, _⟩ := seen_node hrun.inv hb
+    obtain ⟨n, hn⟩ := expand_node_some he
     rcases kind_cases n with h' | h' | h'
-    · left
+    · left; left
       rw [e1]
       exact (hrun.inv.types b).2 ⟨hb, isTypeId_iff.2 ⟨n, hn, h'.1⟩⟩
-    · right
+    · left; right
       exact hreached b (hreachedIff b ⟨hb, isAliasId_iff.2 ⟨n, hn, h'.2.1⟩⟩)
-    · simp [hnr] at h'
+    · right
+      have hr : g.isRouteId b = true := isRouteId_iff.2 ⟨n, hn, h'.2.2.1⟩
+      refine ⟨hr, ?_⟩
+      rw [e2, mem_addAll]
+      exact Or.inr (List.mem_append_right _ ((hrun.inv.routes b).2 ⟨hb, hr⟩))
   intro a ha b hb
   rcases ha with ha | ha | ha
   · rw [e1] at ha
@@ -414,10 +391,11 @@ theorem no_dangling (g : Graph) (wl : Whitelist) (r : Filtered) (hwf : g.refsOk 
       rcases ha with ha | ha
       · simp at ha
       · rcases List.mem_append.1 ha with ha | ha
-        · exact Or.inr (Or.inl ha)
-        · exact Or.inr (Or.inr (Or.inl ha))
+        · exact Or.inr ha
+        · exact Or.inl ((hrun.inv.routes a).1 ha).1
     exact hseen b (known_closed_hard hwf hda hrun hk ((mem_hardRefs_iff g a b).1 hb))
   · -- a retained alias: its check was positive
+    left
     obtain ⟨hin, nd, hnd, hcheck⟩ := (hmem a).1 ha
     obtain ⟨nd', hnd', hal⟩ := mem_allAliases.1 hin
     rw [hnd] at hnd'; cases hnd'
